@@ -304,6 +304,7 @@ def corpus(ctx):
     fixed = random.Random(505)
     st = c01.depth1(True)
     st = st if not ctx.quick else st[::2]
+    st += c01.byte_order_variables(True)[::3 if ctx.quick else 1]       # variables declared with a byte order
     for _ in range(150 if ctx.quick else 1500):
         st.append((c01.random_tree(fixed, 2), fixed.choice(c01.DSTS)))
     for tree, dst in st:
@@ -334,7 +335,8 @@ def corpus(ctx):
     for s in c07.grid(ctx.quick):
         out.append(("C07", repr(s)[:200], lambda k, s=s: progs.build(c07.make_class(s), use_kernel=k)))
     from checks import c02, c04
-    for sh in c02.shapes_of(True)[::1 if not ctx.quick else 3]:
+    for sh in (c02.shapes_of(True)[::1 if not ctx.quick else 3]
+               + (c02.byte_order_destinations(True) + c02.raw_memory_operands(True))[::1 if not ctx.quick else 2]):
         out.append(("C02", repr(sh), lambda k, sh=sh: c02.build(*sh, use_kernel=k)))
     r4 = random.Random(404)
     for _ in range(90 if ctx.quick else 900):
